@@ -162,10 +162,11 @@ func VerifC11ListSeq() {
 			sp.Sort()
 			ml = model.ListSortStable(ml)
 		case 4:
-			// the library's own order (name+value); checked against its documented meaning only when no
-			// two pairs tie, so that the result is determined
+			// the library's own order (name+value): checked against its documented meaning (ordered
+			// permutation); the order among ties is adopted from the implementation, not demanded
 			sp.SortAbsolute()
-			ml = listSortAbsoluteStable(ml)
+			verifCheckSortedAbsolute(ml, implPairs(sp))
+			ml = implPairs(sp)
 		case 5:
 			_ = sp.Has("a")
 			_ = sp.GetAll("b")
@@ -179,22 +180,6 @@ func VerifC11ListSeq() {
 			vnd.Fail("after a mutating list operation the URL's query is not the serialized list")
 		}
 	}
-}
-
-// listSortAbsoluteStable: stable insertion sort by name+value (byte-wise, as documented for SortAbsolute).
-func listSortAbsoluteStable(l []model.Pair) []model.Pair {
-	out := make([]model.Pair, len(l))
-	copy(out, l)
-	for i := 1; i < len(out); i++ {
-		cur := out[i]
-		j := i
-		for j > 0 && cur.Name+cur.Value < out[j-1].Name+out[j-1].Value {
-			out[j] = out[j-1]
-			j--
-		}
-		out[j] = cur
-	}
-	return out
 }
 
 const listSigma = "ab&=+% 2B"
@@ -295,7 +280,13 @@ func VerifC11SortAbsolute() {
 		before = append(before, model.Pair{Name: nm, Value: vl})
 	}
 	sp.SortAbsolute()
-	after := implPairs(sp)
+	verifCheckSortedAbsolute(before, implPairs(sp))
+}
+
+// verifCheckSortedAbsolute: what the documentation of SortAbsolute fixes: a permutation of the
+// parameters, non-decreasing in name+value. (The order among distinct pairs whose name+value
+// concatenations tie is not fixed by anything, so it is not checked.)
+func verifCheckSortedAbsolute(before, after []model.Pair) {
 	if len(after) != len(before) {
 		vnd.Fail("SortAbsolute changed the number of parameters")
 	}
